@@ -947,10 +947,16 @@ func (s *Sim) deliverRound() {
 		s.ev(kind, it.to, it.from, it.data, it.label)
 		s.Delivered = append(s.Delivered, Delivery{From: it.from, To: it.to, Bcast: it.bcast, Data: it.data, Round: s.round, Seq: len(s.Log)})
 		s.orderHash = s.orderHash*1099511628211 ^ uint64(it.from*31+it.to*7+len(it.data)) ^ uint64(boolInt(it.bcast))<<40
+		// the receiver gets the message in a buffer of its own that the transport layer overwrites as soon
+		// as the handler returns: an instance must not keep referring to it
+		buf := append(make([]byte, 0, len(it.data)+8), it.data...)
 		if it.bcast {
-			s.safeCall(n, "HandleBroadcastMsg", func() error { return n.inst.HandleBroadcastMsg(it.from, it.data) })
+			s.safeCall(n, "HandleBroadcastMsg", func() error { return n.inst.HandleBroadcastMsg(it.from, buf) })
 		} else {
-			s.safeCall(n, "HandlePrivateMsg", func() error { return n.inst.HandlePrivateMsg(it.from, it.data) })
+			s.safeCall(n, "HandlePrivateMsg", func() error { return n.inst.HandlePrivateMsg(it.from, buf) })
+		}
+		for i := range buf {
+			buf[i] = 0xEE
 		}
 	}
 }
@@ -973,6 +979,9 @@ func (s *Sim) Run() {
 		}
 		s.ev("start", n.ID, -1, nil, "")
 		s.safeCall(n, "Start", func() error { return n.inst.Start(seed) })
+		for i := range seed {
+			seed[i] = 0xEE // the caller wipes its seed after Start
+		}
 	}
 	s.inject()
 	s.flushHeld()
